@@ -179,12 +179,53 @@ func checkC14(c caseC14, rec *ev.Rec) *ev.Failure {
 		datas[i] = r.Expand()
 	}
 	shared := &lzma.Properties{LC: 2, LP: 1, PB: 3}
-	// sequential reference run
 	type result struct {
 		out []byte
 		err error
 	}
-	comps := make([][]byte, len(c.Jobs))
+	var active, maxActive int32
+	// runAll runs f(i) for every job from a common start signal.
+	runAll := func(f func(i int) result) []result {
+		res := make([]result, len(c.Jobs))
+		var wg sync.WaitGroup
+		start := make(chan struct{})
+		for i := range c.Jobs {
+			wg.Add(1)
+			go func(i int) {
+				defer wg.Done()
+				<-start
+				a := atomic.AddInt32(&active, 1)
+				for {
+					m := atomic.LoadInt32(&maxActive)
+					if a <= m || atomic.CompareAndSwapInt32(&maxActive, m, a) {
+						break
+					}
+				}
+				res[i] = f(i)
+				atomic.AddInt32(&active, -1)
+			}(i)
+		}
+		close(start)
+		wg.Wait()
+		return res
+	}
+	// Phase 1 (concurrent, BEFORE any sequential use in this case, so that
+	// unsynchronised lazy initialisation is exercised concurrently): every
+	// job compresses its data.
+	conc1 := runAll(func(i int) result {
+		out, err := compressJob(c.Jobs[i], datas[c.Jobs[i].Data], shared)
+		return result{out, err}
+	})
+	// Phase 2 (concurrent): reader jobs decode the phase-1 output of their own job.
+	conc2 := runAll(func(i int) result {
+		j := c.Jobs[i]
+		if j.Kind[len(j.Kind)-1] == 'w' || conc1[i].err != nil {
+			return conc1[i]
+		}
+		out, err := decompressJob(j, conc1[i].out)
+		return result{out, err}
+	})
+	// sequential reference run (each writer twice: determinism)
 	want := make([]result, len(c.Jobs))
 	for i, j := range c.Jobs {
 		comp, err := compressJob(j, datas[j.Data], shared)
@@ -192,14 +233,15 @@ func checkC14(c caseC14, rec *ev.Rec) *ev.Failure {
 			rec.Class("sequential_write_fails(other property)")
 			return nil
 		}
-		comps[i] = comp
+		again, err := compressJob(j, datas[j.Data], shared)
+		if err != nil || !bytes.Equal(again, comp) {
+			return ev.Fail(fmt.Sprintf("job %d (%s): compressing the same input twice gives different output (%d vs %d bytes)", i, j.Kind, len(comp), len(again)), "result", "nondeterministic_sequential", "kind", j.Kind)
+		}
+		if conc1[i].err != nil || !bytes.Equal(conc1[i].out, comp) {
+			return ev.Fail(fmt.Sprintf("job %d (%s): compressed output of the concurrent run differs from the sequential run (err %v, %d vs %d bytes)", i, j.Kind, conc1[i].err, len(conc1[i].out), len(comp)), "result", "concurrent_differs", "kind", j.Kind)
+		}
 		if j.Kind[len(j.Kind)-1] == 'w' {
 			want[i] = result{comp, nil}
-			// determinism: a second sequential run gives identical bytes
-			again, err := compressJob(j, datas[j.Data], shared)
-			if err != nil || !bytes.Equal(again, comp) {
-				return ev.Fail(fmt.Sprintf("job %d (%s): compressing the same input twice gives different output (%d vs %d bytes)", i, j.Kind, len(comp), len(again)), "result", "nondeterministic_sequential", "kind", j.Kind)
-			}
 		} else {
 			out, err := decompressJob(j, comp)
 			if err != nil || !bytes.Equal(out, datas[j.Data]) {
@@ -209,36 +251,7 @@ func checkC14(c caseC14, rec *ev.Rec) *ev.Failure {
 			want[i] = result{out, nil}
 		}
 	}
-	// concurrent run
-	got := make([]result, len(c.Jobs))
-	var wg sync.WaitGroup
-	var active, maxActive int32
-	start := make(chan struct{})
-	for i := range c.Jobs {
-		wg.Add(1)
-		go func(i int) {
-			defer wg.Done()
-			<-start
-			a := atomic.AddInt32(&active, 1)
-			for {
-				m := atomic.LoadInt32(&maxActive)
-				if a <= m || atomic.CompareAndSwapInt32(&maxActive, m, a) {
-					break
-				}
-			}
-			j := c.Jobs[i]
-			if j.Kind[len(j.Kind)-1] == 'w' {
-				out, err := compressJob(j, datas[j.Data], shared)
-				got[i] = result{out, err}
-			} else {
-				out, err := decompressJob(j, comps[i])
-				got[i] = result{out, err}
-			}
-			atomic.AddInt32(&active, -1)
-		}(i)
-	}
-	close(start)
-	wg.Wait()
+	got := conc2
 	for i, j := range c.Jobs {
 		if got[i].err != nil {
 			return ev.Fail(fmt.Sprintf("job %d (%s) fails when run concurrently with %d others: %v", i, j.Kind, len(c.Jobs)-1, got[i].err), "result", "concurrent_error", "kind", j.Kind)
